@@ -6,4 +6,9 @@ from replay.common import load, done  # noqa: E402
 from replay import client_bank  # noqa: E402
 
 p = load()
+if p.get("obligation") == "__bounded__" or "syntactic" in p.get("obligation", "") or "GeminiClient." in p.get("obligation", ""):
+    from replay import session_bank
+    r = session_bank.overlap_cases()
+    if r.get("confirmed"):
+        done(**r)
 done(**client_bank.bank("C13"))
